@@ -122,6 +122,35 @@ Definition add_example_stmt : Prop :=
 Lemma add_example : add_example_stmt.
 Proof. vm_compute. repeat split; reflexivity. Qed.
 
+(* unset <obj 0>.http.H*;  with ha = "x", hb = "y" on object 0 and ha = "z" on object 1: both headers of
+   object 0 go (the prefix is compared case-folded), object 1 keeps its own; with the prefix "hA" only ha goes *)
+Definition σ_wild : state :=
+  {| heap := [VInt 5 false]; locals := [(0%N, 0%nat)]; globals := []; groups := [];
+     hdrs := [((0%N, 0%N), [Byte.x78]); ((0%N, 1%N), [Byte.x79]); ((1%N, 0%N), [Byte.x7a])];
+     logs := []; depth := 0; trace := [] |}.
+Definition unset_wildcard_example_stmt : Prop :=
+  match exec repaired std_ops [] 20 false (SUnsetWild 0 [Byte.x48]) σ_wild,
+        exec repaired std_ops [] 20 false (SUnsetWild 0 [Byte.x68; Byte.x41]) σ_wild with
+  | OK (ONorm, σ1), OK (ONorm, σ2) =>
+      read σ1 (NHeader 0 0) = Some (VStr [] true false) /\ read σ1 (NHeader 0 1) = Some (VStr [] true false) /\
+      read σ1 (NHeader 1 0) = Some (VStr [Byte.x7a] false false) /\ read σ1 (NLocal 0) = Some (VInt 5 false) /\
+      read σ2 (NHeader 0 0) = Some (VStr [] true false) /\ read σ2 (NHeader 0 1) = Some (VStr [Byte.x79] false false)
+  | _, _ => False
+  end.
+Lemma unset_wildcard_example : unset_wildcard_example_stmt.
+Proof. vm_compute. repeat split; reflexivity. Qed.
+
+(* synthetic "g";  with the response body as ctx cell 1: it becomes "g"; ctx cell 0 and var.v0 keep their values *)
+Definition synthetic_example_stmt : Prop :=
+  match exec repaired std_ops [] 20 false (SSynthetic 1 (ELit (VStr [Byte.x67] false true))) σ_err with
+  | OK (ONorm, σ') =>
+      read σ' (NGlobal 1) = Some (VStr [Byte.x67] false false) /\
+      read σ' (NGlobal 0) = Some (VInt 500 false) /\ read σ' (NLocal 0) = Some (VInt 5 false)
+  | _ => False
+  end.
+Lemma synthetic_example : synthetic_example_stmt.
+Proof. vm_compute. repeat split; reflexivity. Qed.
+
 (* BEFORE the repair of unary minus: evaluating -var.v0 changes var.v0 *)
 Lemma neg_in_place_refutes :
   exists n m e σ l σ',
